@@ -7,7 +7,7 @@ struct C19Op
 {
   uint8_t kind, a, b;
 };
-enum { C19_MAXOBSERVABLES = 3, C19_MAXOBSERVERS = 4, C19_MAXTHREADS = 5, C19_MAXOPS = 16, C19_STAMPS = 4 };
+enum { C19_MAXOBSERVABLES = 3, C19_MAXOBSERVERS = 44, C19_REGULAR_OBSERVERS = 4, C19_MAXTHREADS = 5, C19_MAXOPS = 16, C19_STAMPS = 4 };
 struct C19Plan
 {
   int nobs_ops;
@@ -16,6 +16,7 @@ struct C19Plan
   int nops[C19_MAXTHREADS];
   C19Op ops[C19_MAXTHREADS][C19_MAXOPS];
   int t0_stamp_ops;   // thread 0 also creates stamps between observer operations
+  int bulk_n, bulk_at, bulk_obs;   // bulk_n > 0: before operation bulk_at, observers 4..4+bulk_n-1 are attached to observable bulk_obs (if alive)
   int fast_forward;   // the process has already handed out 2^32-24 stamps (state injection)
 };
 extern "C" {
